@@ -1,6 +1,7 @@
 mod c03;
 mod c04;
 mod c05;
+mod c07;
 mod c08;
 mod c11;
 mod c11gen;
@@ -19,6 +20,17 @@ fn main() {
         // panics of the code under test are caught and reported as data; the harness's own are loud
         if !util::IN_FMT.with(|f| f.get()) {
             eprintln!("harness panic: {}", info);
+        } else if let Some(l) = info.location() {
+            let file = l.file().rsplit("/src/").next().unwrap_or(l.file()).to_string();
+            // panics inside a dependency are identified by crate only (their code cannot change with /repo)
+            let at = if l.file().contains("full_moon") {
+                "full_moon-parser".to_string()
+            } else if l.file().contains("/.cargo/") || l.file().contains("/rustc/") {
+                format!("dependency:{}", file)
+            } else {
+                format!("{}:{}", file, l.line())
+            };
+            util::LAST_PANIC_AT.with(|c| *c.borrow_mut() = at);
         }
     }));
     let args: Vec<String> = std::env::args().collect();
@@ -29,6 +41,7 @@ fn main() {
         "c03" => c03::run(&tier, seed),
         "c04" => c04::run(&tier, seed),
         "c05" => c05::run(&tier, seed),
+        "c07" => c07::run(&tier, seed),
         "c08" => c08::run(&tier, seed),
         "c11" => c11gen::run(&tier, seed),
         "c12" => c12::run(&tier, seed),
